@@ -168,7 +168,8 @@ pub fn initial_file(sc: &Scenario) -> Vec<u8> {
         ram[1][so + 1] = (BASE >> 8) as u8;
         sna::write_48k(&sna::SnaState { regs, border: 2, latch: 0, is_128k: false }, &ram)
     } else {
-        sna::write_128k(&sna::SnaState { regs, border: 2, latch: 0x10, is_128k: true }, &ram)
+        // any bank at 0xC000: with bank 2 or 5 the file has the long 147487-byte layout
+        sna::write_128k(&sna::SnaState { regs, border: 2, latch: 0x10 | (sc.seed % 8) as u8, is_128k: true }, &ram)
     }
 }
 
